@@ -29,17 +29,17 @@ const S3: &[i64] = &[0, 1, -1];
 const S4: &[i64] = &[0, 1, -1, 2];
 const S5: &[i64] = &[0, 1, -1, 2, -2];
 const D6: &[i64] = &[0, 1, -1, 2, 3, 4];
-const D4: &[i64] = &[1, 2, 3, 0];
+const D3: &[i64] = &[1, 2, 0];
 
 thread_local! {
     static FAM_CACHE: RefCell<Option<(String, Option<Input>)>> = RefCell::new(None);
 }
 
 fn rhs_mode(job: &Job) -> RhsMode {
-    if job.params["rhs"].as_str() == Some("full") {
-        RhsMode::Full
-    } else {
-        RhsMode::PerWidth
+    match job.params["rhs"].as_str() {
+        Some("full") => RhsMode::Full,
+        Some("two") => RhsMode::Two,
+        _ => RhsMode::PerWidth,
     }
 }
 
@@ -109,7 +109,7 @@ fn lattice_case(job: &Job) {
                 g[i][j] = (0..m).map(|k| q[k][i] * q[k][j]).sum();
             }
         }
-        let gi = gen::prepare_int(format!("gram-of-lattice({}x{})", m, n), &g, pert.den() * pert.den());
+        let gi = gen::prepare_gram(format!("gram-of-lattice({}x{})", m, n), &g, pert.den() * pert.den(), &inp);
         check::run_case(&gi, e, w, rhs_mode(job), true);
     }
 }
@@ -176,37 +176,43 @@ impl Harness for C01 {
         let both = [64u8, 32u8];
         let mut jobs = Vec::new();
         let alpha = if t { S5 } else { S4 };
+        let rhs_lat = if t { "pw" } else { "two" };
         // 1. the general lattice, every shape up to 3x3
         let mut shapes: Vec<(usize, usize)> = (1..=3).flat_map(|m| (1..=3).map(move |n| (m, n))).collect();
         shapes.sort_by_key(|&(m, n)| (m * n, m));
         for &(m, n) in &shapes {
             let shard = if m * n == 9 { 2 } else { 0 };
-            lattice_jobs(&mut jobs, pert, m, n, "full", alpha, &[], &scales, &both, shard, if t { "full" } else { "pw" }, true);
+            lattice_jobs(&mut jobs, pert, m, n, "full", alpha, &[], &scales, &both, shard, rhs_lat, true);
         }
         // 2. symmetric lattice (Cholesky: positive definite must succeed, clearly indefinite must be refused)
         for n in 1..=3 {
-            lattice_jobs(&mut jobs, pert, n, n, "sym", S5, D6, &scales, &both, 0, "full", false);
+            lattice_jobs(&mut jobs, pert, n, n, "sym", S5, D6, &scales, &both, if n == 3 { 1 } else { 0 }, "pw", false);
         }
-        lattice_jobs(&mut jobs, pert, 4, 4, "sym", S3, D4, &scales[..1], &both, 2, "pw", false);
         if t {
-            lattice_jobs(&mut jobs, pert, 4, 4, "sym", S5, D6, &scales, &both, 3, "pw", false);
-            lattice_jobs(&mut jobs, pert, 5, 5, "sym", S3, D4, &scales[..1], &both, 4, "pw", false);
+            lattice_jobs(&mut jobs, pert, 4, 4, "sym", S3, D6, &scales, &both, 2, "pw", false);
+            lattice_jobs(&mut jobs, pert, 4, 4, "sym", S5, D6, &scales[..1], &[64], 4, "two", false);
+            lattice_jobs(&mut jobs, pert, 5, 5, "sym", S3, D3, &scales[..1], &[64], 5, "two", false);
+        } else {
+            lattice_jobs(&mut jobs, pert, 4, 4, "sym", S3, D3, &scales[..1], &both, 2, "two", false);
         }
         // 3. 4-row / 4-column shapes
-        for &(m, n) in &[(4usize, 1usize), (1, 4), (4, 2), (2, 4)] {
-            lattice_jobs(&mut jobs, pert, m, n, "full", alpha, &[], &scales, &both, 0, "pw", true);
+        for &(m, n) in &[(4usize, 1usize), (1, 4)] {
+            lattice_jobs(&mut jobs, pert, m, n, "full", alpha, &[], &scales, &both, 0, rhs_lat, true);
         }
-        lattice_jobs(&mut jobs, pert, 4, 4, "full", S2, &[], &scales[..1], &both, 2, "pw", true);
-        lattice_jobs(&mut jobs, pert, 4, 4, "full", S2PM, &[], &scales[..1], &both, 2, "pw", true);
+        for &(m, n) in &[(4usize, 2usize), (2, 4)] {
+            lattice_jobs(&mut jobs, pert, m, n, "full", if t { S5 } else { S3 }, &[], &scales, &both, if t { 2 } else { 0 }, rhs_lat, true);
+        }
+        lattice_jobs(&mut jobs, pert, 4, 4, "full", S2, &[], &scales[..1], &both, 2, "two", true);
+        lattice_jobs(&mut jobs, pert, 4, 4, "full", S2PM, &[], &scales[..1], &both, 2, "two", true);
         if t {
             for &(m, n) in &[(4usize, 3usize), (3, 4)] {
-                lattice_jobs(&mut jobs, pert, m, n, "full", S3, &[], &scales, &both, 3, "pw", true);
+                lattice_jobs(&mut jobs, pert, m, n, "full", S3, &[], &scales, &both, 3, "two", true);
             }
-            lattice_jobs(&mut jobs, pert, 4, 4, "hess", S3, &[], &scales[1..], &both, 3, "pw", true);
-            lattice_jobs(&mut jobs, pert, 4, 4, "full", S3, &[], &scales[..1], &both, 6, "pw", true);
+            lattice_jobs(&mut jobs, pert, 4, 4, "hess", S3, &[], &scales[1..], &both, 3, "two", true);
+            lattice_jobs(&mut jobs, pert, 4, 4, "full", S3, &[], &scales[..1], &[64], 6, "two", true);
         } else {
             for &(m, n) in &[(4usize, 3usize), (3, 4)] {
-                lattice_jobs(&mut jobs, pert, m, n, "full", S2, &[], &scales, &both, 0, "pw", true);
+                lattice_jobs(&mut jobs, pert, m, n, "full", S2, &[], &scales, &both, 0, "two", true);
             }
         }
         // 4. structured families
@@ -227,11 +233,11 @@ impl Harness for C01 {
                 "alphabet_perturbation_of_seed": pert.describe(),
                 "scales_log2": scales,
                 "float_widths": ["f64", "f32"],
-                "lattice_general": format!("every m x n matrix, 1<=m,n<=3, over {:?}; 4x1,1x4,4x2,2x4 over the same; 4x4 over {{0,1}} and {{1,-1}} (scale 1){}", alpha, if t { "; 4x3, 3x4 over {0,1,-1}; 4x4 over {0,1,-1} (scale 1); 4x4 upper Hessenberg over {0,1,-1} at the other scales" } else { "; 4x3, 3x4 over {0,1}" }),
-                "lattice_symmetric": format!("every symmetric n x n, n<=3, off-diagonal over {:?}, diagonal over {:?}; 4x4 off-diagonal {:?} diagonal {:?} (scale 1){}", S5, D6, S3, D4, if t { "; 4x4 over the larger alphabets at all scales; 5x5 over the smaller at scale 1" } else { "" }),
+                "lattice_general": format!("every m x n matrix, 1<=m,n<=3, over {:?}; 4x1,1x4 over the same; 4x2,2x4 over {:?}; 4x4 over {{0,1}} and {{1,-1}} (scale 1){}", alpha, if t { S5 } else { S3 }, if t { "; 4x3, 3x4 over {0,1,-1}; 4x4 over {0,1,-1} (scale 1, f64); 4x4 upper Hessenberg over {0,1,-1} at the other scales" } else { "; 4x3, 3x4 over {0,1}" }),
+                "lattice_symmetric": format!("every symmetric n x n, n<=3, off-diagonal over {:?}, diagonal over {:?}; {}", S5, D6, if t { "4x4 off-diagonal {0,1,-1} x diagonal {0,1,-1,2,3,4} at all scales; 4x4 off-diagonal {0,1,-1,2,-2} x the same diagonal (scale 1, f64); 5x5 off-diagonal {0,1,-1} diagonal {1,2,0} (scale 1, f64)" } else { "4x4 off-diagonal {0,1,-1} diagonal {1,2,0} (scale 1)" }),
                 "gram": "for every full-column-rank lattice matrix G also the SPD matrix G^T G (Cholesky clauses only)",
                 "families": format!("{} structured families, n = 1..{}, every variant, aspects sq/t1/t5/t2n/w1/w5, every scale, both widths", gen::FAMILIES.len(), nmax),
-                "right_hand_sides": "B = A*X0, X0 over {0,1,-1} patterns with 1..4 columns (3 patterns per width in the full catalogue, 1 per width otherwise), plus B with a component outside range(A) for tall / rank-deficient A",
+                "right_hand_sides": "B = A*X0, X0 over {0,1,-1} patterns with 1..4 columns (full catalogue: 3 patterns per width; 'pw': one per width; 'two': p=1 and p=3), each also with a component outside range(A) for tall / rank-deficient A",
                 "conditioning": "clauses demanded only for cond_2(A) <= 1e6 (oracle one-sided Jacobi); cond-sensitive clauses additionally only when max(m,n)*eps_T*cond <= 1/64",
             }),
         }
